@@ -49,6 +49,7 @@ class World:
         self.keep = []
         self.registered = []        # (cls, ns) successfully registered and not yet unregistered
         self.blocks = []            # open context managers
+        self.prebuilt = None
 
     def ns_arg(self, ns):
         return GLOBAL if ns == 'GLOBAL' else 123 if ns == 'NONSTR' else ns
@@ -76,7 +77,11 @@ class World:
                     optree.unregister_pytree_node(self.types[c['ty']], namespace=self.ns_arg(c['ns']))
                     self.registered.remove((self.types[c['ty']], self.ns_arg(c['ns'])))
                 elif op == 'enter':
-                    cm = optree.dict_insertion_ordered(c['pet'] == 'T', namespace=self.ns_arg(c['ns']))
+                    # every other history builds all its context-manager objects BEFORE the first call (a list prepared for an
+                    # ExitStack, the decorator form): what a block restores is what it found when it was ENTERED
+                    cm = self.prebuilt.pop(0) if self.prebuilt is not None else optree.dict_insertion_ordered(c['pet'] == 'T', namespace=self.ns_arg(c['ns']))
+                    if isinstance(cm, Exception):
+                        raise cm
                     cm.__enter__()
                     self.blocks.append(cm)
                 elif op == 'exit':
@@ -182,6 +187,14 @@ class World:
 def run_history(h):
     w = World()
     ev = []
+    if h.get('pre', h['tid'] % 2 == 1):
+        w.prebuilt = []
+        for c in h['calls']:
+            if c['op'] == 'enter':
+                try:
+                    w.prebuilt.append(optree.dict_insertion_ordered(c['pet'] == 'T', namespace=w.ns_arg(c['ns'])))
+                except Exception as ex:   # noqa: BLE001
+                    w.prebuilt.append(ex)
     try:
         for c in h['calls']:
             res = w.call(c)
